@@ -60,6 +60,9 @@ def tokens(text):
             i = n if j < 0 else j
 
 
+KEYWORDS = ('node', 'edge', 'graph', 'digraph', 'subgraph', 'strict')
+
+
 class Parser:
     def __init__(self, text):
         self.t = tokens(text)
@@ -77,6 +80,8 @@ class Parser:
 
     def ident(self):
         tok = self.peek()
+        if tok[0] == 'id' and tok[1].lower() in KEYWORDS:
+            raise DotError('keyword %r used as an identifier (token %d)' % (tok[1], self.i))
         if tok[0] in ('id', 'str'):
             self.i += 1
             return tok[1]
